@@ -242,8 +242,14 @@ class DistinctCountCheck(AbstractCheck):
         self._field_name_to_count = first_token[1]
         fields.field_name_index(self._field_name_to_count, available_field_names, location)
         line_where_field_name_ends, column_where_field_name_ends = first_token[3]
+        if line_where_field_name_ends != 1:
+            # For example a rule starting with a backslash and a line break.
+            raise errors.InterfaceError(
+                "rule must start with a field name in its first line but found it in line %d"
+                % line_where_field_name_ends,
+                self.location_of_rule,
+            )
         assert column_where_field_name_ends > 0
-        assert line_where_field_name_ends == 1
 
         # Build and test Python expression for validation.
         self._expression = DistinctCountCheck._COUNT_NAME + rule[column_where_field_name_ends:]
